@@ -234,11 +234,69 @@ theorem C33_finish_window_holds : C33_finish_window := by
 theorem finish_reversed_refuted :
     (runActs ⟨true, true, 1⟩ (finishWith [.endRelocation, .deletePeerState] 0 1 0)).started = 2 := by decide
 
+/-! ### A''. the whole life of one departure: duplicates, abort, re-request -/
+
+/-- invariant: while a job is registered exactly `aborts + 1` relocations were started; otherwise
+    either as many as aborted (a re-request may start the next one) or one more with nothing left to
+    relocate (no further NodeLeft can start anything) -/
+def lifeInv (d : Life) : Prop :=
+  if d.job then d.runs = d.aborts + 1
+  else d.runs = d.aborts ∨ (d.snapshot = false ∧ d.records = false ∧ d.runs = d.aborts + 1)
+
+theorem lifeInv_step (d : Life) (a : LifeAct) (h : lifeInv d) : lifeInv (lifeStep d a) := by
+  obtain ⟨sn, rc, jb, rn, an, ab⟩ := d
+  unfold lifeInv at h ⊢
+  cases a <;> cases sn <;> cases rc <;> cases jb <;> simp_all [lifeStep] <;> omega
+
+theorem lifeInv_run (l : List LifeAct) (d : Life) (h : lifeInv d) : lifeInv (lifeRun d l) := by
+  induction l generalizing d with
+  | nil => exact h
+  | cons a l ih => exact ih _ (lifeInv_step d a h)
+
+/-- once per departure, re-requests included: over EVERY sequence of NodeLefts (duplicates at any
+    moment, on either path), completed runs and aborted runs, the number of relocations started never
+    exceeds the number of aborted ones plus one; and while one is in flight it is exactly that -/
+def C33_life : Prop :=
+  ∀ (snapshot : Bool) (l : List LifeAct),
+    let d := lifeRun (Life.init snapshot) l
+    d.runs ≤ d.aborts + 1 ∧ (d.job = true → d.runs = d.aborts + 1)
+
+theorem C33_life_holds : C33_life := by
+  intro snapshot l d
+  have h : lifeInv d := lifeInv_run l _ (by simp [lifeInv, Life.init])
+  unfold lifeInv at h
+  constructor
+  · split at h
+    · omega
+    · rcases h with h | ⟨_, _, h⟩ <;> omega
+  · intro hj
+    simpa [hj] using h
+
+/-- "one RelocationStarted per started relocation" at full strength -/
+def C33_announce_full : Prop :=
+  ∀ (snapshot : Bool) (l : List LifeAct), (lifeRun (Life.init snapshot) l).announced = (lifeRun (Life.init snapshot) l).runs
+
+/-- finding C33-F1: on the crash-recovery path the event is published before the in-flight check, so a
+    duplicate NodeLeft announces a relocation that is not started -/
+theorem C33_announce_refuted : ¬ C33_announce_full := by
+  intro h
+  have := h false [.nodeLeft, .nodeLeft]
+  revert this
+  decide
+
+/-- what does hold: a NodeLeft handled on the snapshot path announces exactly what it starts -/
+theorem C33_announce_partial (d : Life) (hs : d.snapshot = true) :
+    (lifeStep d .nodeLeft).announced - d.announced = (lifeStep d .nodeLeft).runs - d.runs := by
+  simp only [lifeStep, hs, ↓reduceIte]
+  split <;> simp
+
+example : (lifeRun (Life.init true) [.nodeLeft, .nodeLeft, .runAbort, .nodeLeft, .nodeLeft, .runOK, .nodeLeft]).runs = 2 := by decide
+
 /-! ### the full statement -/
 
-def C33_full : Prop := C33_accounting ∧ C33_abort_accounting ∧ C33_once ∧ C33_finish_window
+def C33_full : Prop := C33_accounting ∧ C33_abort_accounting ∧ C33_once ∧ C33_finish_window ∧ C33_life
 
-theorem C33_holds : C33_full := ⟨C33_accounting_holds, C33_abort_accounting_holds, C33_once_holds, C33_finish_window_holds⟩
+theorem C33_holds : C33_full := ⟨C33_accounting_holds, C33_abort_accounting_holds, C33_once_holds, C33_finish_window_holds, C33_life_holds⟩
 
 /-! ### non-vacuity (tests by evaluation on concrete histories) -/
 
